@@ -43,6 +43,37 @@ def root_name(n):
     return n.id if isinstance(n, ast.Name) else None
 
 
+CLASS_DATA = set()      # names of class-level data attributes and module-level names of the whole package (set by main)
+
+
+def mentions_class_data(e):
+    """does the access path of `e` go through an attribute that is class-level data somewhere in the package
+    (self.STATIC_TABLE_MAPPING, obj.table.STATIC_TABLE ...)?  Such an object is shared whatever it is reached from."""
+    x = e
+    while isinstance(x, (ast.Attribute, ast.Subscript, ast.Call)):
+        if isinstance(x, ast.Attribute) and x.attr in CLASS_DATA:
+            return True
+        x = x.func if isinstance(x, ast.Call) else x.value
+    return False
+
+
+def collect_class_data(tree):
+    out = set()
+    for n in tree.body:
+        if isinstance(n, ast.ClassDef):
+            for m in n.body:
+                if isinstance(m, (ast.Assign, ast.AnnAssign)):
+                    for t in (m.targets if isinstance(m, ast.Assign) else [m.target]):
+                        if isinstance(t, ast.Name) and t.id not in ("__slots__",):
+                            out.add(t.id)
+        # attributes attached to a class at module level: HeaderTable.STATIC_TABLE_MAPPING = ...
+        if isinstance(n, (ast.Assign, ast.AnnAssign)):
+            for t in (n.targets if isinstance(n, ast.Assign) else [n.target]):
+                if isinstance(t, ast.Attribute):
+                    out.add(t.attr)
+    return out
+
+
 def check_file(path, fname, out):
     tree = ast.parse(open(path).read())
     shared = set()         # module-level names (incl. imported ones) and classes
@@ -88,6 +119,8 @@ def check_file(path, fname, out):
                     alias.add(s.targets[0].id)
                 elif r in alias:
                     alias.add(s.targets[0].id)
+                elif mentions_class_data(s.value):
+                    alias.add(s.targets[0].id)       # m = self.STATIC_TABLE_MAPPING.get(k): a shared object
             if isinstance(s, ast.For):
                 r = root_name(s.iter)
                 if r in shared or r in alias:
@@ -101,6 +134,8 @@ def check_file(path, fname, out):
 
         def is_shared_expr(e):
             r = root_name(e)
+            if mentions_class_data(e):
+                return True
             if r is None:
                 return False
             if r in ("cls",):
@@ -217,6 +252,13 @@ def main():
     src = sys.argv[1]
     out = []
     files = sorted(f for f in os.listdir(src) if f.endswith(".py"))
+    CLASS_DATA.clear()
+    for f in files:
+        try:
+            CLASS_DATA.update(collect_class_data(ast.parse(open(os.path.join(src, f)).read())))
+        except SyntaxError:
+            pass
+    CLASS_DATA.discard("indexable")      # (read-only booleans of the two tuple classes)
     for f in files:
         try:
             check_file(os.path.join(src, f), f, out)
